@@ -1434,6 +1434,8 @@ def concretize(v, m):
         return type(v)(*[concretize(x, m) for x in v])
     if isinstance(v, (list, tuple)):
         return type(v)(concretize(x, m) for x in v)
+    if hasattr(v, "getall") and hasattr(v, "append"):
+        return type(v)([(concretize(k, m), concretize(x, m)) for k, x in v.items()])
     if isinstance(v, dict):
         return {concretize(k, m): concretize(x, m) for k, x in v.items()}
     if isinstance(v, (set, frozenset)):
